@@ -4,7 +4,7 @@ package otp
 
 //verif:harness prop=C08 name=random
 //verif:cases quick alg=0..2 decodeupto=20
-//verif:cases thorough alg=0..2 decodeupto=64
+//verif:cases thorough alg=0..2 decodeupto=32
 //verif:opt unwind=4000
 func verifH_C08_random() {
 	alg := verifCase("alg")
